@@ -141,7 +141,7 @@ def vg_kwargs(rng, small_rescale=True):
     if rng.random() < 0.3:
         kw["match_segregating_sites"] = bool(rng.random() < 0.5)
     if rng.random() < 0.3:
-        kw["max_shape"] = float(rng.choice([1.0, 2.0, 10.0, 1000.0, 1e6]))
+        kw["max_shape"] = float(rng.choice([1.5, 2.0, 10.0, 1000.0, 1e6]))
     if rng.random() < 0.2:
         kw["regularise_roots"] = bool(rng.random() < 0.5)
     return kw
